@@ -92,6 +92,15 @@ def check(chk):
     chk.judge(tl.get('time_low') == 'intervals & 4294967295' and tl.get('time_mid') == 'intervals >> 32 & 65535' and tl.get('time_hi_version') == 'intervals >> 48 & 4095', 'C34.uuid', uft,
               'time fields: low 32 bits, mid 16 bits, high 12 bits of the interval count', 'time field packing changed: %s' % dict((k, tl.get(k)) for k in ('time_low', 'time_mid', 'time_hi_version')))
 
+    # a datetime is an instant: its UTC fields, not its wall-clock fields, go into timegm
+    tg = [n for n in body_walk(uft) if isinstance(n, ast.Call) and src(n.func) == 'calendar.timegm']
+    if len(tg) != 1 or not tg[0].args:
+        raise AnalysisError('uuid_from_time: calendar.timegm call not found')
+    a0 = tg[0].args[0]
+    chk.judge(isinstance(a0, ast.Call) and isinstance(a0.func, ast.Attribute) and a0.func.attr == 'utctimetuple', 'C34.uuid', tg[0],
+              'uuid_from_time: seconds = timegm(<datetime>.utctimetuple())',
+              'timegm is fed %s: for a timezone-aware datetime the UUID encodes the wall-clock reading, not the instant, and min/max_uuid_from_time no longer bracket it' % src(a0))
+
     # Date
     ds = m.func('Date.__str__')
     fmts = [n.left.value for n in body_walk(ds) if isinstance(n, ast.BinOp) and isinstance(n.op, ast.Mod) and isinstance(n.left, ast.Constant)]
